@@ -586,6 +586,8 @@ let hist_line (l : string) : string =
         | TNamed _, _ -> exp_rec v
         | TTuple [_; TNamed _; _], VNode (tg, [a; rv; c]) ->
             (match exp_rec rv with Good x -> Good (VNode (tg, [a; x; c])) | Bad e -> Bad e)
+        | TTuple [_; TNamed _; _; _], VNode (tg, [a; rv; c; d]) ->
+            (match exp_rec rv with Good x -> Good (VNode (tg, [a; x; c; d])) | Bad e -> Bad e)
         | TSeq (KVec, TNamed _), VNode (tg, rvs) ->
             (match map_result exp_rec rvs with Good xs -> Good (VNode (tg, xs)) | Bad e -> Bad e)
         | _ -> failwith "unsupported wrapper" in
